@@ -380,11 +380,10 @@ def sim_layout(S, nt, N, k, layout):
 
 # ------------------------------------------------------------------ the oracle
 class Judgement:
-    """Geometric relation between a parent mesh and a refined mesh."""
-    pass
+    """Geometric relation between a parent mesh and a refined mesh (parent_of, fmap, topologies, exact flag)."""
 
 
-def own_validity(ctx, mesh, kind, tag, strict_first_order=True):
+def own_validity(ctx, mesh, kind, tag):
     """Structural validity with the harness' own eyes; returns list of problems."""
     probs = []
     nvl = G.NVERT[kind]
